@@ -129,6 +129,42 @@ def run(ck, fb):
                    '%s recomputes InnerNodeManage.current_range but never tells the naming actor: NamingActor.current_range stays what it was, so after a '
                    'node is marked unavailable the survivors route its keys to themselves but do not take the instances over (no heartbeat '
                    'supervision for the services of the dead node)' % fn, 'refresh_process_range reachable after update_process_range')
+    # in update_nodes the push is conditional: the condition must become true whenever the node SET changed (a node dropped, a node added),
+    # or be a comparison of the ranges themselves; a comparison of node counts misses a membership change that swaps nodes
+    un = ck.body(INM + 'update_nodes', 'R14f')
+    if un:
+        for s0 in un.calls(re.escape(INM + 'refresh_process_range') + '$'):
+            flags = [cfg.describe_operand(un, t0['discr']) for (s_, d_, lab_, t0) in cfg.dominating_edges(un, s0.bb)]
+            flags = [d for d in flags if d['k'] == 'multi']
+            ok = False
+            why = 'the push is not conditional on a membership-change flag'
+            if not flags and any(a[0] == 'call' and re.search(r'::(ne|eq)$', a[1] or '') for a in cfg.guard_atoms(un, s0.bb)):
+                ok = True       # compares the ranges themselves
+            for d in flags:
+                defs = un.defs.get(d['l'], [])
+                on_insert = on_delete = False
+                for kind, bb, j, node in defs:
+                    if kind != 'stmt':
+                        continue
+                    rv = node['rv']
+                    atoms = cfg.guard_atoms(un, bb)
+                    if rv['k'] == 'use' and 'c' in rv['op'] and rv['op']['c'].get('v') in (True, 'true', 1):
+                        if any(a[0] == 'variant' and a[2] == 'None' and 'get_mut' in cfg.fmt_desc(a[3]) for a in atoms) or \
+                                any(a[0] == 'notvariant' for a in atoms):
+                            on_insert = True
+                        if any(a[0] == 'call' and (a[1] or '').endswith('contains') and a[2] is False for a in atoms):
+                            on_delete = True
+                    t = Taint(un, call_src=lambda t: (t.get('f') or {}).get('d', '').endswith('Vec::<T, A>::is_empty') or (t.get('f') or {}).get('d', '').endswith('::is_empty'))
+                    from rn.facts import rv_operands
+                    if any(t.op_tainted(x) for x in rv_operands(rv)):
+                        on_delete = True
+                ok = ok or (on_insert and on_delete)
+                if not ok:
+                    why = 'the flag that guards the push is not set by both a node removal (%s) and a node insertion (%s)' % (on_delete, on_insert)
+            ck.require(ok, 'R14f', 'update_nodes:push-on-every-set-change', s0.where(),
+                       'the naming actor is told the new range only under a condition that does not follow the node SET: %s - a membership change that '
+                       'replaces as many nodes as it removes ({1,3,5} -> {1,2,3} seen by node 3) moves the local range while the naming actor keeps '
+                       'the old one' % why)
     rp = ck.body(INM + 'refresh_process_range', 'R14f')
     if rp:
         sd = util.sends(rp, r'NamingCmd$', 'ClusterRefreshProcessRange')
